@@ -458,7 +458,7 @@ func (k *collector) report(r *kit.Run) {
 }
 
 type stats struct {
-	applyJudged, applyErrJudged                         int64
+	upToJudged, applyJudged, applyErrJudged                       int64
 	composeJudged, composeSkipUnordered, composeSkipErr int64
 	geomJudged, geomSkipUnannotated, geomSkipRange      int64
 	lateBeforeInTime, unorderedLists, outOfRangeLists   int64
@@ -473,6 +473,7 @@ var variantCounterNames = [...]string{
 	"cases_boundary_children", "cases_without_children"}
 
 func (s *stats) flush(r *kit.Run) {
+	r.Add("upto_evaluations_judged", s.upToJudged)
 	r.Add("apply_evaluations_state_judged", s.applyJudged)
 	r.Add("apply_evaluations_error_judged", s.applyErrJudged)
 	r.Add("compose_pairs_judged", s.composeJudged)
@@ -557,6 +558,42 @@ func checkCase(r *kit.Run, el *element, c Case, st *stats) {
 	for t := 0; t <= maxT; t++ {
 		model(c, t, &exp)
 		e := el.build()
+		// ---- Updates.UpTo(t): the sub-list of the updates stamped at or before t, in their
+		// stored order (what ApplyUpdatesUpTo(t) consumes), the list itself untouched
+		if len(c.Upd) > 0 && kind == "way" {
+			us := e.way.Updates
+			tt := at(c.Scale, t)
+			var want osm.Updates
+			for _, u := range e.tmpl[:len(c.Upd)] {
+				if !u.Timestamp.After(tt) {
+					want = append(want, u)
+				}
+			}
+			got, pan := func() (g osm.Updates, p interface{}) {
+				defer func() { p = recover() }()
+				return us.UpTo(tt), nil
+			}()
+			st.upToJudged++
+			switch {
+			case pan != nil:
+				viol("upto/panic", fmt.Sprintf("t=%d: Updates.UpTo panicked: %v", t, pan))
+			case len(got) != len(want):
+				viol("upto/selection-"+shape, fmt.Sprintf("t=%d: UpTo returned %d updates, %d are stamped at or before t: got %v want %v", t, len(got), len(want), got, want))
+			default:
+				for i := range got {
+					if got[i] != want[i] {
+						viol("upto/selection-"+shape, fmt.Sprintf("t=%d: UpTo()[%d] = %v, want %v (stored order)", t, i, got[i], want[i]))
+						break
+					}
+				}
+			}
+			for i := range us {
+				if us[i] != e.tmpl[i] {
+					viol("upto/list-modified", fmt.Sprintf("t=%d: UpTo changed entry %d of the list it was called on", t, i))
+					break
+				}
+			}
+		}
 		err, pan := e.apply(t)
 		got := &direct[t]
 		e.snap(got)
